@@ -788,6 +788,33 @@ func (p *pkgInfo) rreaddir(fd *ast.FuncDecl, dir string, l *layout) {
 
 // ---------------------------------------------------------------------------------
 
+// leafFields lists the leaf fields of a struct type (dotted paths; embedded structs add no
+// component; a struct of bools counts as one leaf), in declaration order.
+func (p *pkgInfo) leafFields(typ string, prefix []string, out *[]string) {
+	st := p.structs[typ]
+	if st == nil {
+		return
+	}
+	for _, f := range st.Fields.List {
+		ft := strings.TrimPrefix(src(f.Type), "*")
+		if len(f.Names) == 0 { // embedded
+			if p.structs[ft] != nil && !p.isBoolStruct(ft) {
+				p.leafFields(ft, prefix, out)
+			} else {
+				*out = append(*out, join(prefix, []string{ft}))
+			}
+			continue
+		}
+		for _, n := range f.Names {
+			if p.structs[ft] != nil && !p.isBoolStruct(ft) {
+				p.leafFields(ft, append(append([]string{}, prefix...), n.Name), out)
+			} else {
+				*out = append(*out, join(prefix, []string{n.Name}))
+			}
+		}
+	}
+}
+
 func leanFields(fs []field) string {
 	var out []string
 	for _, f := range fs {
@@ -862,7 +889,7 @@ func genLayouts(p *pkgInfo, out string) {
 	var sb strings.Builder
 	sb.WriteString("-- GENERATED by /verif/extract from /repo/p9 (messages.go, p9.go, buffer.go). Do not edit.\n")
 	sb.WriteString("import P9Model.Wire.Msg\nnamespace P9.Gen\nopen P9\n\n")
-	sb.WriteString("structure GenMsg where\n  goName : String\n  typ : Nat\n  enc : List FieldDesc\n  dec : List FieldDesc\n  payEnc : PayKind\n  payDec : PayKind\n  isPayloader : Bool\n  fixedSize : Nat\n  resets : List String\n  lists : List String\n  stops : List String\n  unknown : List String\nderiving Repr, DecidableEq\n\n")
+	sb.WriteString("structure GenMsg where\n  goName : String\n  typ : Nat\n  enc : List FieldDesc\n  dec : List FieldDesc\n  payEnc : PayKind\n  payDec : PayKind\n  isPayloader : Bool\n  fixedSize : Nat\n  resets : List String\n  lists : List String\n  stops : List String\n  structFields : List String\n  unknown : List String\nderiving Repr, DecidableEq\n\n")
 	var names []string
 	for _, r := range regs {
 		var le, ld layout
@@ -898,10 +925,12 @@ func genLayouts(p *pkgInfo, out string) {
 			pd = "none"
 		}
 		unk := append(append([]string{}, le.unknown...), ld.unknown...)
+		var leaves []string
+		p.leafFields(r.goType, nil, &leaves)
 		def := "m_" + r.goType
 		names = append(names, def)
-		fmt.Fprintf(&sb, "def %s : GenMsg :=\n  { goName := %s, typ := %s,\n    enc := %s,\n    dec := %s,\n    payEnc := .%s, payDec := .%s, isPayloader := %s, fixedSize := %s,\n    resets := %s, lists := %s, stops := %s,\n    unknown := %s }\n\n",
-			def, leanStr(r.goType), constOf(typName), leanFields(le.fields), leanFields(ld.fields), pe, pd, isPay, fixed, leanStrs(ld.resets), leanStrs(ld.lists), leanStrs(ld.stops), leanStrs(unk))
+		fmt.Fprintf(&sb, "def %s : GenMsg :=\n  { goName := %s, typ := %s,\n    enc := %s,\n    dec := %s,\n    payEnc := .%s, payDec := .%s, isPayloader := %s, fixedSize := %s,\n    resets := %s, lists := %s, stops := %s,\n    structFields := %s,\n    unknown := %s }\n\n",
+			def, leanStr(r.goType), constOf(typName), leanFields(le.fields), leanFields(ld.fields), pe, pd, isPay, fixed, leanStrs(ld.resets), leanStrs(ld.lists), leanStrs(ld.stops), leanStrs(leaves), leanStrs(unk))
 	}
 	fmt.Fprintf(&sb, "def messages : List GenMsg := [%s]\n\n", strings.Join(names, ", "))
 	fmt.Fprintf(&sb, "def registryUnknown : List String := %s\n\n", leanStrs(regUnknown))
@@ -924,6 +953,20 @@ func genLayouts(p *pkgInfo, out string) {
 		putClears = strings.HasPrefix(norm(src(fd.Body)), "{ if p, ok := msg.(payloader); ok { p.SetPayload(nil) }")
 	}
 	fmt.Fprintf(&sb, "\ndef registryPutClearsPayload : Bool := %v\n", putClears)
+	// recv(): a payload buffer is reused only if it has exactly the needed length, and is then
+	// overwritten in full by vecs.ReadFrom (it is one of the vectors)
+	recvReuse := false
+	if fd := p.funcs["recv"]; fd != nil {
+		b := norm(src(fd.Body))
+		recvReuse = strings.Contains(b, "p := payloader.Payload() if p == nil || len(p) != int(remaining-fixedSize) { p = make([]byte, remaining-fixedSize) payloader.SetPayload(p) } if len(p) > 0 { vecs = append(vecs, p) }")
+	}
+	fmt.Fprintf(&sb, "def recvPayloadExactOrFresh : Bool := %v\n", recvReuse)
+	// the server's read buffers are zeroed over the bytes handed out before going back to the pool
+	cleanup := false
+	if fd := p.methods["rreadServerPayloader.PayloadCleanup"]; fd != nil {
+		cleanup = strings.Contains(norm(src(fd.Body)), "copy(r.Data, r.cs.pristineZeros) r.cs.readBufPool.Put(&r.fullBuffer)")
+	}
+	fmt.Fprintf(&sb, "def readBufferZeroedOnCleanup : Bool := %v\n", cleanup)
 	sb.WriteString("\nend P9.Gen\n")
 	writeIfChanged(filepath.Join(out, "Layouts.lean"), sb.String())
 }
